@@ -204,6 +204,16 @@ pub mod oracle {
         super::cut();
         Err(SignatureError::new())
     }
+    /// `VerifyingKey::from_bytes` without the curve arithmetic: every 32-byte string is taken as a key
+    /// whose compressed form is those bytes (the point itself is never read: `verify` is the oracle).
+    /// Widens the set of accepted keys, so "accepted => exactly this triple was verified" stays sound;
+    /// the real decompression runs in the *.O1f / *.O2c length instances and in every native replay.
+    pub fn from_bytes_wrap(b: &[u8; 32]) -> Result<VerifyingKey, SignatureError> {
+        let vk: VerifyingKey = unsafe { std::mem::zeroed() };
+        let p = vk.as_bytes().as_ptr() as *mut u8;
+        unsafe { std::ptr::copy_nonoverlapping(b.as_ptr(), p, 32) };
+        Ok(vk)
+    }
     /// true iff query i was about exactly (key, msg, sig)
     pub fn was_about(i: usize, key: &[u8; 32], msg: &[u8], sig: &[u8; 64]) -> bool {
         unsafe {
